@@ -26,6 +26,7 @@ type GenOpts struct {
 	Symlinks    bool // some workflow files are symbolic links to files outside their repository
 	GenIface    bool // a reusable workflow with a generated interface (types, required, defaults in every combination) and callers of it
 	Clone       bool // some worlds reuse one workflow text for several files (same code paths collide: shared tables, caches)
+	DirLinks    bool // some worlds reach the first repository through a second path as well (a symbolic link to its root)
 }
 
 // RepoInfo describes one generated repository.
@@ -66,10 +67,18 @@ var pathConfigs = []string{
 // and d/.git exists.
 func containingRepo(d *kern.Disk, file string) string {
 	dir := path.Dir(file)
+	isDir := func(p string) bool {
+		rp, st := d.Resolve(p, true)
+		return st == 0 && d.Dirs[rp]
+	}
+	isFile := func(p string) bool {
+		rp, st := d.Resolve(p, true)
+		_, ok := d.Files[rp]
+		return st == 0 && ok
+	}
 	for {
-		if d.Dirs[path.Join(dir, ".github/workflows")] {
-			_, gitFile := d.Files[path.Join(dir, ".git")]
-			if d.Dirs[path.Join(dir, ".git")] || gitFile {
+		if isDir(path.Join(dir, ".github/workflows")) {
+			if isDir(path.Join(dir, ".git")) || isFile(path.Join(dir, ".git")) {
 				return dir
 			}
 		}
@@ -298,6 +307,17 @@ func GenMulti(c *Chooser, o GenOpts) *MultiWorld {
 	if len(args) > 12 {
 		args = args[:12]
 	}
+	if o.DirLinks && c.Weighted("world.dirlink", 1, 8) {
+		// the first repository is also reachable as /w/lnk (a symbolic link to its root, as left by a
+		// checkout tool or a workspace layout); some of its files are named through the link
+		root := mw.Repos[0].Root
+		disk.Symlink("/w/lnk", root)
+		for i, f := range args {
+			if strings.HasPrefix(f, root+"/") && !strings.HasPrefix(f, root+"/vendor/") && c.Bool("world.vialink") {
+				args[i] = "/w/lnk" + f[len(root):]
+			}
+		}
+	}
 	mw.AbsArgs = args
 	for _, f := range args {
 		mw.RepoOf[f] = containingRepo(disk, f)
@@ -456,4 +476,38 @@ func ApplyLogLevel(c *Chooser, w *World) {
 			w.Args = append([]string{"-debug"}, w.Args...)
 		}
 	}
+}
+
+// RelocateDir moves the directory old (with everything below it) to new and leaves a symbolic
+// link at old pointing to it: the same tree, reached through a link.
+func RelocateDir(d *kern.Disk, old, new string) {
+	re := func(p string) (string, bool) {
+		if p == old {
+			return new, true
+		}
+		if strings.HasPrefix(p, old+"/") {
+			return new + p[len(old):], true
+		}
+		return p, false
+	}
+	for p, c := range d.Files {
+		if q, ok := re(p); ok {
+			delete(d.Files, p)
+			d.Files[q] = c
+		}
+	}
+	for p, t := range d.Links {
+		if q, ok := re(p); ok {
+			delete(d.Links, p)
+			d.Links[q] = t
+		}
+	}
+	for p := range d.Dirs {
+		if q, ok := re(p); ok {
+			delete(d.Dirs, p)
+			d.MkdirAll(q)
+		}
+	}
+	d.MkdirAll(new)
+	d.Symlink(old, new)
 }
